@@ -442,44 +442,20 @@ theorem c17_expr_rejected_has_offending_call (allowed : String → Bool) (e : DE
   obtain ⟨t, hm, ho⟩ := hrej
   exact ⟨t, hasCall_of_mem_calls e t hm, ho⟩
 
-/-- **Counterexample at the guard (finding C17-split-outputs-allowlisted).**  Every call of a
-`SPLIT_*` function over call-free arguments is accepted — `SPLIT_DATE(d0, total, aux, aux)` is — although
-these functions write their `YEAR`/`MONTH`/… output arguments: registered as a watch expression it
-overwrites program variables at every stop (replayed on the real runtime by the check). -/
-theorem c17_expr_counterexample_split_accepted (name : String) (args : List DExpr)
-    (hs : Gen.splitNames.contains name.toUpper = true) (hargs : callsList args = []) :
-    hasSideEffects isAllowedWatchCall (.call (some name) args) = false := by
-  have hs' : name.toUpper ∈ Gen.splitNames := by simpa using hs
-  simp [hasSideEffects, DExpr.calls, hargs, offending, isAllowedWatchCall]
-  intro _ _; exact hs'
-
-example : Gen.splitNames.contains "SPLIT_DATE" = true ∧ callsList [.leaf, .leaf, .leaf, .leaf] = [] := by
-  simp [callsList, DExpr.calls, Gen.splitNames]
-
-/-- **Partial theorem (real allow-list, guard `noSplitCall`).**  An accepted expression without
-`SPLIT_*` calls contains only calls of the pure standard functions of `is_pure_stdlib_name` and of
-type conversions — functions without output or in-out parameters. -/
-theorem c17_expr_accepted_partial (e : DExpr) (hacc : hasSideEffects isAllowedWatchCall e = false)
-    (hns : noSplitCall e = true) (t : Option String) (hc : HasCall e t) :
+/-- **On the real allow-list** (as of 140f0e8): every call, anywhere, of an accepted expression is a
+call of a pure standard function of `is_pure_stdlib_name` or of a type conversion — functions
+without output or in-out parameters.  (The former finding C17-split-outputs-allowlisted: `SPLIT_*`
+were allow-listed although they write their outputs; no guard is needed any more.) -/
+theorem c17_expr_accepted_pure_or_conversion (e : DExpr)
+    (hacc : hasSideEffects isAllowedWatchCall e = false) (t : Option String) (hc : HasCall e t) :
     ∃ n, t = some n ∧ (Gen.pureNames.contains n.toUpper = true ∨ isConversionName n.toUpper = true) := by
-  have hm := mem_calls_of_hasCall e t hc
-  simp only [hasSideEffects, List.any_eq_false] at hacc
-  have h1 := hacc t hm
-  simp only [noSplitCall, List.all_eq_true] at hns
-  have h2 := hns t hm
-  cases t with
-  | none => simp [offending] at h1
-  | some n =>
-    refine ⟨n, rfl, ?_⟩
-    have h1' : (Gen.pureNames.contains n.toUpper || isConversionName n.toUpper ||
-        Gen.splitNames.contains n.toUpper) = true := by
-      cases hb : (Gen.pureNames.contains n.toUpper || isConversionName n.toUpper ||
-        Gen.splitNames.contains n.toUpper) <;> simp_all [offending, isAllowedWatchCall]
-    simp only [Bool.or_eq_true] at h1'
-    rcases h1' with (h | h) | h
-    · exact Or.inl h
-    · exact Or.inr h
-    · simp only [h] at h2; cases h2
+  obtain ⟨n, rfl, hn⟩ := c17_expr_accepted_only_allowed_calls isAllowedWatchCall e hacc t hc
+  refine ⟨n, rfl, ?_⟩
+  simpa [isAllowedWatchCall] using hn
+
+/-- Regression of the fixed finding, in the model: a `SPLIT_*` name is neither a pure standard
+function name nor a conversion name pattern the guard could accept by the pure list. -/
+example : Gen.pureNames.contains "SPLIT_DATE" = false := by decide
 
 /-- Non-vacuity (with the allow-list `ABS`, `MAX`, `INT_TO_DINT`; the real, generated allow-list is
 what the driver runs): `ABS(MAX(x, INT_TO_DINT(y)))` is accepted and contains three calls;
